@@ -2,3 +2,16 @@
 //! appendix A. Shares no code with /repo. Used as judge (fsck/decoder), as foreign producer
 //! (encoder) and as field locator for structure-aware corruption.
 pub mod page;
+
+/// Cheap completeness test used until the full fsck has judged an image: whole pages, valid
+/// checksums, file header with the right magic whose length field equals the image size.
+pub fn quick_complete(image: &[u8]) -> bool {
+    if image.len() < 1024 || image.len() % 1024 != 0 {
+        return false;
+    }
+    if &image[0..8] != b"ASTM-E57" {
+        return false;
+    }
+    let len = u64::from_le_bytes(image[16..24].try_into().unwrap_or([0; 8]));
+    len == image.len() as u64 && page::bad_pages(image).is_empty()
+}
